@@ -6,6 +6,6 @@ MC_Build == EnvInt("V_BUILD", 2)
 Emit ==
   (MC_Emit /\ pc' = "idle" /\ res'.kind # "none" /\ (pc = "build" \/ ncalls' # ncalls)) =>
      PrintT(<<"HIST", ToJson([planner |-> "prm", topo |-> MC_T, maxd |-> 0, rad2 |-> MC_Rad2, lvs |-> MC_Lvs,
-                             bias |-> "0", seeded |-> MC_Seeded, valid |-> valid, probs |-> probs, build |-> MC_Build,
+                             bias |-> "0", seeded |-> MC_Seeded, worlds |-> worlds, probs |-> probs, build |-> MC_Build,
                              calls |-> hist'])>>)
 =============================================================================
